@@ -61,39 +61,81 @@ def queue_behaviours(g, walks):
     return out
 
 
-class LinJudged:
+def printed(out, tag):
+    """tuples <<"tag", ...>> printed by a monitor (robust against TLC wrapping long tuples); every occurrence must parse."""
+    ts = vlib.tuples(out, tag)
+    if len(ts) != out.count('"%s"' % tag):
+        raise vlib.Infra("could not parse every %s tuple printed by TLC (%d of %d)" % (tag, len(ts), out.count('"%s"' % tag)))
+    return ts
+
+
+class Judged:
+    """Verdicts of one TLC monitor run over several concatenated history files."""
     def __init__(self):
-        self.n = 0
-        self.ok = 0
-        self.bad = []        # (from_line, to_line) 1-based inclusive spans of histories that are not linearizable
-        self.rows = None
-        self.concurrent = 0  # histories with at least two overlapping operations
+        self.rows = []
+        self.sources = []     # (label, first_line, last_line) 1-based inclusive
+        self.n = collections.Counter()           # label -> histories
+        self.concurrent = collections.Counter()  # label -> DISTINCT histories with at least two overlapping operations
+        self.seen = set()
+        self.bad = collections.defaultdict(list) # label -> [(from_line, to_line, detail)]
+
+    def label_of(self, line):
+        for label, a, b in self.sources:
+            if a <= line <= b:
+                return label
+        return "?"
 
 
-def judge_fifo(ctx, lock, label, trace, timeout=1500):
-    """TLC/LinFifo.tla over a file of call/return histories."""
+def concat(ctx, lock, name, parts):
+    """parts = [(label, path)] -> (path of the concatenation, Judged with rows / sources filled)."""
+    j = Judged()
+    with lock:
+        out = ctx.tmp(name)
+    with open(out, "w") as f:
+        for label, path in parts:
+            rows = vlib.read_ndjson(path)
+            j.sources.append((label, len(j.rows) + 1, len(j.rows) + len(rows)))
+            j.rows.extend(rows)
+            with open(path) as g:
+                f.write(g.read())
+    return out, j
+
+
+def count_histories(j, key):
+    """fills n / concurrent; returns [(label, from_line, to_line)] per history (from = opening New line, to = closing New line)."""
+    hs = []
+    for label, a, b in j.sources:
+        bounds = [i for i in range(a, b + 1) if j.rows[i - 1][key] == "New"]
+        for k in range(1, len(bounds)):
+            if bounds[k] == bounds[k - 1] + 1:
+                continue
+            hs.append((label, bounds[k - 1], bounds[k]))
+            j.n[label] += 1
+            open_ops, overlap = 0, False
+            for e in j.rows[bounds[k - 1]:bounds[k] - 1]:
+                open_ops += 1 if e["ev"] == "call" else -1
+                overlap = overlap or open_ops >= 2
+            if overlap:
+                h = hash(json.dumps([[e.get(f) for f in ("ev", "t", "op", "id", "e", "s", "res")]
+                                     for e in j.rows[bounds[k - 1]:bounds[k] - 1]]))
+                if h not in j.seen:
+                    j.seen.add(h)
+                    j.concurrent[label] += 1
+    return hs
+
+
+def judge_fifo(ctx, lock, parts, timeout=3000):
+    """one TLC/LinFifo.tla run over all queue histories."""
+    trace, j = concat(ctx, lock, "queue-histories.ndjson", parts)
     r = ctx.tlc(SPEC, "LinFifo.cfg", module="LinFifo", dfs=True, files={"trace.ndjson": trace}, timeout=timeout,
-                heap="6g", name="lin-" + label)
-    rows = vlib.read_ndjson(trace)
-    bounds = [i + 1 for i, e in enumerate(rows) if e["ev"] == "New"]
-    ends = {int(m.group(1)) for m in re.finditer(r'<<"END", (\d+)>>', r.out)}
-    seen = ends | {int(m.group(1)) for m in re.finditer(r'<<"ENDBAD", (\d+)>>', r.out)}
-    j = LinJudged()
-    j.rows = rows
-    j.n = len(bounds) - 1
-    if bounds and bounds[-1] not in seen:
-        raise vlib.Infra("LinFifo did not consume the whole history file %s" % label)
-    for k in range(1, len(bounds)):
-        if bounds[k] in ends:
-            j.ok += 1
-        else:
-            j.bad.append((bounds[k - 1], bounds[k]))
-        open_ops = 0
-        for e in rows[bounds[k - 1]:bounds[k] - 1]:
-            open_ops += 1 if e["ev"] == "call" else -1
-            if open_ops >= 2:
-                j.concurrent += 1
-                break
+                heap="8g", name="lin-fifo")
+    ends = {t[0] for t in printed(r.out, "END")}
+    seen = ends | {t[0] for t in printed(r.out, "ENDBAD")}
+    if len(j.rows) not in seen:
+        raise vlib.Infra("LinFifo did not consume the whole history file")
+    for label, a, b in count_histories(j, "ev"):
+        if b not in ends:
+            j.bad[label].append((a, b, describe_fifo(j.rows, (a, b))))
     return j
 
 
@@ -116,6 +158,36 @@ def describe_fifo(rows, span):
     return "; ".join(parts)
 
 
+STREAM_WHAT = {
+    "lost": "event %(e)d was published while %(s)s was subscribed and active but no Iterator ever returned it",
+    "dup": "event %(e)d was returned twice to %(s)s",
+    "dup-in-result": "one Iterator result of %(s)s contains an event twice",
+    "alien": "Iterator of %(s)s returned %(e)d which was never published (nil / foreign message)",
+    "after-unsubscribe": "event %(e)d, published after Unsubscribe/Remove/Shutdown of %(s)s had returned, was delivered to it",
+    "order-in-result": "an Iterator result of %(s)s is not in publish order",
+    "order-across-results": "successive (non-overlapping) Iterator results of %(s)s are not in publish order",
+    "panic": "Iterator of %(s)s panicked"}
+
+
+def judge_stream(ctx, lock, parts, timeout=3000):
+    """one TLC/StreamMon.tla run over all stream histories."""
+    trace, j = concat(ctx, lock, "stream-histories.ndjson", parts)
+    r = ctx.tlc(SPEC, "StreamMon.cfg", module="StreamMon", dfs=True, files={"trace.ndjson": trace}, timeout=timeout,
+                heap="8g", name="mon-stream")
+    if r.depth != len(j.rows) + 1:
+        raise vlib.Infra("StreamMon did not consume the whole history file (%d of %d lines)" % (r.depth - 1, len(j.rows)))
+    hs = count_histories(j, "ev")
+    mism = collections.defaultdict(list)
+    for t in printed(r.out, "MISMATCH"):
+        mism[t[0]].append((t[1], t[2], t[3]))
+    for label, a, b in hs:
+        found = [(ln, x) for ln in range(a + 1, b + 1) for x in mism.get(ln, [])]   # end checks are reported at line b
+        if found:
+            kind, ev, sub = found[0][1]
+            j.bad[label].append((a, b, STREAM_WHAT.get(kind, kind + " (%(s)s)") % {"e": ev, "s": sub}))
+    return j
+
+
 def cut(ctx, lock, rows, span, name):
     with lock:
         p = ctx.tmp(name + ".ndjson")
@@ -123,154 +195,342 @@ def cut(ctx, lock, rows, span, name):
     return p
 
 
+def conformance(ctx, lock, spec_cfg_text, module, cfgname, parts, timeout=3000):
+    """one TLC trace-validation run (design spec actions vs. projected real state) over concatenated step logs."""
+    with lock:
+        out = ctx.tmp("conf-" + cfgname + ".ndjson")
+    n = 0
+    with open(out, "w") as f:
+        for label, path in parts:
+            with open(path) as g:
+                txt = g.read()
+            n += txt.count("\n")
+            f.write(txt)
+    files = {"trace.ndjson": out}
+    if spec_cfg_text:
+        cfg = write_cfg(ctx, lock, cfgname + ".cfg", spec_cfg_text)
+        files[os.path.basename(cfg)] = cfg
+        cfgname = os.path.basename(cfg)[:-4]
+    conf = ctx.tlc(SPEC, cfgname + ".cfg", module=module, dfs=True, files=files, timeout=timeout, heap="8g", expect_fail=True,
+                   name="conf-" + cfgname)
+    if conf.error or conf.violated:
+        return "%s error: %s" % (module, (conf.error or conf.violated)[:300])
+    if conf.depth != n + 1:
+        return "%s rejected the real trace (%s) at line %d of %d" % (module, "+".join(l for l, _ in parts), conf.depth, n)
+    return None
+
+
 # ------------------------------------------------------------------------------------------- run
 def run(ctx, pid):
     quick = ctx.quick
-    rng = ctx.rng
     lock = threading.Lock()
     exe = ctx.build("eventstream")
-    pool = concurrent.futures.ThreadPoolExecutor(max_workers=4)
+    pool = concurrent.futures.ThreadPoolExecutor(max_workers=5)
     total = collections.Counter()
     samples = []
     drift_notes = []
     assumptions = [
         "step-wise replays run with GOMAXPROCS(1) and GC off (deterministic goroutine hand-over; sync.Pool, if the tree under "
         "test recycles queue nodes, then behaves as the one-P model: private slot, LIFO shared list); a replay in which the real "
-        "node identity differs from the model's is counted as unreproduced, never as a violation",
-        "call/return order of free-running histories = sequence number taken under one lock before the call and after the "
-        "return (sound for linearizability; may only lose real-time precedence)",
+        "node identity / Go map iteration order differs from the model's choice is counted as unreproduced, never as a violation",
+        "call/return order of free-running histories = order in which the events were appended under one lock, before the call "
+        "and after the return (sound for linearizability; may only lose real-time precedence); free-running runs install a "
+        "verifhook handler that yields the processor at random hook points",
         "consumers: Subscriber does not document single-goroutine use, so concurrent Iterator calls on one subscriber are "
-        "explored too; the per-publisher order clause is then checked within each Iterator result",
-        "bounds of the exhaustive runs as stated in the .cfg files (2-3 threads per role, 1-2 operations each)",
+        "explored too; the per-publisher order clause is then checked within each Iterator result only",
+        "bounds of the exhaustive runs as stated in the generated .cfg files (2-3 threads per role, 1-2 operations each)",
     ]
 
-    def finish(violations=0):
+    def evidence(violations=0):
         st, tr = ctx.states()
         cov = {"states": st, "transitions": tr, "traces_validated_against_impl": total["hist"], "samples": samples[:6],
                "evaluations": total["hist"], "distinct_nontrivial": total["concurrent_ok"],
                "rule": "histories = puppet replays of edge-cover walks of the MSQueue.tla / Stream.tla state graphs on the real "
-                       "queue.Queue / EventsStream + free-running concurrent runs; distinct_nontrivial = histories with at "
-                       "least two overlapping operations that TLC judged correct (LinFifo / StreamMon)",
-               "edge_cover_walks_replayed": total["walks"], "atomic_steps_replayed": total["steps"],
-               "replay_drift": total["drift"], "replay_unreproduced": total["unrep"],
-               "model_prediction_mismatches": total["pred"], "conformance": drift_notes, "exhaustive": False}
+                       "queue.Queue / EventsStream, hand-written witness schedules, and free-running concurrent runs; "
+                       "distinct_nontrivial = distinct (by content) histories with at least two overlapping operations that TLC judged correct "
+                       "(LinFifo / StreamMon)",
+               "edge_cover_walks_available": total["walks_available"], "edge_cover_walks_replayed": total["walks"],
+               "atomic_steps_replayed": total["steps"], "replay_drift": total["drift"], "replay_unreproduced": total["unrep"],
+               "model_prediction_mismatches": total["pred"], "conformance": drift_notes or "accepted", "exhaustive": False}
         ctx.evidence("model_checking", cov, assumptions, violations=violations)
 
-    def account_fifo(j, source):
-        total["hist"] += j.n
-        total["concurrent_ok"] += min(j.concurrent, j.ok)
-        if j.bad:
-            span = j.bad[0]
-            rp = ctx.save_replay("queue-seed%d" % ctx.seed, cut(ctx, lock, j.rows, span, "violation-queue"))
-            finish(violations=len(j.bad))
-            raise vlib.Violation(pid, rp, "internal/queue (%s): %d of %d histories are not linearizable to a FIFO queue; first at "
-                                 "lines %d..%d: %s" % (source, len(j.bad), j.n, span[0], span[1], describe_fifo(j.rows, span)))
-
-    # ------------------------------------------------------------------ 1. design level
-    if quick:
-        mc_cfgs = [("mc-2e1m-2d2", msq_cfg(["p1", "p2"], ["c1", "c2"], 1, 2, 3, extra=MSQ_INV))]
-    else:
-        mc_cfgs = [("mc-2e2m-2d2", msq_cfg(["p1", "p2"], ["c1", "c2"], 2, 2, 5, extra=MSQ_INV)),
-                   ("mc-3e1m-2d2", msq_cfg(["p1", "p2", "p3"], ["c1", "c2"], 1, 2, 4, extra=MSQ_INV)),
-                   ("mc-2e2m-1d4", msq_cfg(["p1", "p2"], ["c1"], 2, 4, 5, extra=MSQ_INV))]
-    f_mc = []
-    for name, text in mc_cfgs:
-        cfg = write_cfg(ctx, lock, name + ".cfg", text)
-        f_mc.append(pool.submit(ctx.tlc_must_hold, SPEC, os.path.basename(cfg), module="MC_MSQueue",
-                                files={os.path.basename(cfg): cfg}, timeout=2400, workers=4 if quick else 8, name=name))
-    # the code as found must keep violating the design obligations (otherwise the Defects branch is stale)
-    f_asis = pool.submit(ctx.tlc, SPEC, "MC_MSQueue_asis.cfg", module="MC_MSQueue", timeout=900, expect_fail=True, workers=2)
-
-    # ------------------------------------------------------------------ 2. free-running queue histories
-    def qstress_one(label, nenq, nmsgs, ndeq, nh):
-        with lock:
-            t = ctx.tmp("qstress-%s.ndjson" % label)
-        ctx.run([exe, "qstress", str(nenq), str(nmsgs), str(ndeq), str(nh), str(ctx.seed * 1000 + nenq * 10 + ndeq), t], timeout=900)
-        return label, judge_fifo(ctx, lock, "qstress-" + label, t, timeout=3000)
-
-    nh = 400 if quick else 5000
-    stress_futs = [pool.submit(qstress_one, "3e3m1d", 3, 3, 1, nh), pool.submit(qstress_one, "3e2m2d", 3, 2, 2, nh)]
-
-    # ------------------------------------------------------------------ 3. spec -> code: MSQueue edge cover
-    def dump(name, text):
-        cfg = write_cfg(ctx, lock, name + ".cfg", text)
-        return ctx.tlc(SPEC, os.path.basename(cfg), module="MC_MSQueue", files={os.path.basename(cfg): cfg}, timeout=1800,
-                       dump_dot=True, name=name, workers=4)
-
-    def qreplay_one(label, beh, constants):
-        with lock:
-            bfile = ctx.tmp("q-%s-behaviours.ndjson" % label)
-            hfile = ctx.tmp("q-%s-hist.ndjson" % label)
-            cfile = ctx.tmp("q-%s-conf.ndjson" % label)
-        vlib.write_ndjson(bfile, beh)
-        p = ctx.run([exe, "qreplay", bfile, hfile, cfile], timeout=1800)
-        rs = json.loads(p.stdout.strip().splitlines()[-1])
-        j = judge_fifo(ctx, lock, "qreplay-" + label, hfile, timeout=3000)
-        conf = ctx.tlc(SPEC, "Trace_MSQueue.cfg", dfs=True, files={"trace.ndjson": cfile}, timeout=3000, heap="8g",
-                       expect_fail=True, name="conf-" + label)
-        drift = None
-        if conf.error or conf.violated:
-            drift = "Trace_MSQueue error on %s: %s" % (label, (conf.error or conf.violated)[:300])
-        elif conf.depth != rs["conf_lines"] + 1:
-            drift = "Trace_MSQueue rejected the real trace of %s at line %d of %d" % (label, conf.depth, rs["conf_lines"])
-        return label, rs, j, drift
-
-    dumps = [("1d", msq_cfg(["p1", "p2"], ["c1"], 1, 2, 3), 100000 if quick else 100000),
-             ("2d", msq_cfg(["p1", "p2"], ["c1", "c2"], 1, 1, 3), 2500 if quick else 100000)]
-    if not quick:
-        dumps.append(("1d2m", msq_cfg(["p1", "p2"], ["c1"], 2, 2, 5), 40000))
-    replay_futs = []
-    for label, text, nsel in dumps:
-        d = dump("dump-msq-" + label, text)
+    # ------------------------------------------------------------------ pipelines: dump graph -> edge cover -> replay
+    def q_pipeline(label, cfgtext, nsel):
+        cfg = write_cfg(ctx, lock, "msq-%s.cfg" % label, cfgtext)
+        d = ctx.tlc_must_hold(SPEC, os.path.basename(cfg), module="MC_MSQueue", files={os.path.basename(cfg): cfg}, timeout=2400,
+                              dump_dot=True, name="msq-" + label, workers=4)
         g = tlagraph.Graph.load(os.path.join(d.rundir, "graph.dot"))
+        rng = vlib.random.Random("%d-%s" % (ctx.seed, label))
         walks, left = g.edge_cover(rng)
         if left:
             raise vlib.Infra("edge cover incomplete (MSQueue %s)" % label)
         sel = vlib.sample(rng, walks, nsel)
         beh = queue_behaviours(g, sel)
-        total["walks_available"] += len(walks)
-        if len(samples) < 2:
-            samples.append({"msqueue_walk_" + label: [[s["a"], s["args"][0]] for s in beh[0]]})
-        replay_futs.append(pool.submit(qreplay_one, label, beh, None))
-        del g
+        with lock:
+            bfile, hfile, cfile = (ctx.tmp("q-%s-%s.ndjson" % (label, x)) for x in ("behaviours", "hist", "conf"))
+        vlib.write_ndjson(bfile, beh)
+        p = ctx.run([exe, "qreplay", bfile, hfile, cfile], timeout=1800)
+        rs = json.loads(p.stdout.strip().splitlines()[-1])
+        return {"label": label, "rs": rs, "hist": hfile, "conf": cfile, "avail": len(walks), "distinct": d.distinct,
+                "sample": [[s["a"], s["args"][0]] for s in beh[0]]}
 
-    # ------------------------------------------------------------------ 4. stream level
-    stream_futs = run_stream(ctx, pid, exe, pool, lock, rng, total, samples, drift_notes)
+    def q_sim_pipeline(label, num):
+        """random deep walks at larger bounds (3 enqueuers x 2, 2 dequeuers x 3) from TLC -simulate over Gen_MSQueue.tla"""
+        r = ctx.tlc(SPEC, "Sim_MSQueue.cfg", module="Gen_MSQueue", simulate="num=%d" % num, depth=90, deadlock_check=False,
+                    timeout=1800, workers=1, name="sim-msq")
+        seen, beh = set(), []
+        for h in vlib.parse_sim_behaviours(r.out):
+            key = json.dumps([x["l"] for x in h[:-1]])
+            if key in seen:
+                continue
+            seen.add(key)
+            steps = []
+            for x in h:
+                t, a = x["l"].split(":")
+                st = {"a": a, "args": [t], "node": x["node"][t], "lt": x["lt"][t], "ln": x["ln"][t]}
+                if a == "DDec" or (a == "DLoadNext" and x["pc"][t] in ("idle", "done")):
+                    st["res"] = x["res"]
+                steps.append(st)
+            beh.append(steps)
+        if len(beh) < num // 2:
+            raise vlib.Infra("Gen_MSQueue produced too few walks (%d)" % len(beh))
+        with lock:
+            bfile, hfile, cfile = (ctx.tmp("q-%s-%s.ndjson" % (label, x)) for x in ("behaviours", "hist", "conf"))
+        vlib.write_ndjson(bfile, beh)
+        p = ctx.run([exe, "qreplay", bfile, hfile, cfile], timeout=1800)
+        rs = json.loads(p.stdout.strip().splitlines()[-1])
+        return {"label": label, "rs": rs, "hist": hfile, "conf": cfile, "avail": len(beh),
+                "sample": [[s["a"], s["args"][0]] for s in beh[0]]}
 
-    # ------------------------------------------------------------------ collect
-    for f in f_mc:
-        r = f.result()
-        ctx.log("design MSQueue: %d distinct states, obligations hold" % r.distinct)
-    asis = f_asis.result()
-    if asis.violated is None:
-        raise vlib.Infra("MSQueue.tla with Defects={PoolReuse} no longer violates its obligations (spec changed?)")
-    for fut in replay_futs:
-        label, rs, j, drift = fut.result()
-        total["drift"] += rs["drift"]
+    def s_pipeline(label, consts, nsel, inv):
+        cfg = write_cfg(ctx, lock, "stream-%s.cfg" % label, stream_cfg(*consts, extra=inv))
+        d = ctx.tlc_must_hold(SPEC, os.path.basename(cfg), module="MC_Stream", files={os.path.basename(cfg): cfg}, timeout=2400,
+                              dump_dot=True, name="stream-" + label, workers=4)
+        g = tlagraph.Graph.load(os.path.join(d.rundir, "graph.dot"))
+        rng = vlib.random.Random("%d-%s" % (ctx.seed, label))
+        walks, left = g.edge_cover(rng)
+        if left:
+            raise vlib.Infra("edge cover incomplete (Stream %s)" % label)
+        sel = vlib.sample(rng, walks, nsel)
+        beh = stream_behaviours(g, sel, consts[2], consts[3])
+        r = s_replay(label, beh)
+        r.update({"avail": len(walks), "distinct": d.distinct, "consts": consts,
+                  "sample": [[x["a"], x["t"]] for x in beh[0]["steps"]]})
+        return r
+
+    def s_replay(label, beh):
+        with lock:
+            bfile, hfile, cfile = (ctx.tmp("s-%s-%s.ndjson" % (label, x)) for x in ("behaviours", "hist", "conf"))
+        vlib.write_ndjson(bfile, beh)
+        p = ctx.run([exe, "sreplay", bfile, hfile, cfile], timeout=1800)
+        return {"label": label, "rs": json.loads(p.stdout.strip().splitlines()[-1]), "hist": hfile, "conf": cfile}
+
+    def stress(kind, label, a, b, c, nh):
+        with lock:
+            t = ctx.tmp("%s-%s.ndjson" % (kind, label))
+        ctx.run([exe, kind, str(a), str(b), str(c), str(nh), str(ctx.seed * 1000 + a * 10 + c), t], timeout=900)
+        return {"label": kind + "-" + label, "hist": t}
+
+    if quick:
+        q_dumps = [("1d", msq_cfg(["p1", "p2"], ["c1"], 1, 2, 3, extra=MSQ_INV), 100000),
+                   ("2d", msq_cfg(["p1", "p2"], ["c1", "c2"], 1, 1, 3, extra=MSQ_INV), 1200)]
+        s_dumps = [("1s", (["p1", "p2"], 1, ["s1"], ["s1"], ["d1"], 2, ["k1"], 1), 900, STREAM_INV_1D),
+                   ("2s", (["p1"], 1, ["s1", "s2"], ["s1"], ["d1", "d3"], 1, ["k1"], 1), 450, STREAM_INV_1D),
+                   ("2d", (["p1", "p2"], 1, ["s1"], ["s1"], ["d1", "d2"], 2, [], 0), 450, STREAM_INV_2D)]
+        nh = 250
+    else:
+        q_dumps = [("1d", msq_cfg(["p1", "p2"], ["c1"], 1, 2, 3, extra=MSQ_INV), 100000),
+                   ("2d", msq_cfg(["p1", "p2"], ["c1", "c2"], 1, 1, 3, extra=MSQ_INV), 100000),
+                   ("1d2m", msq_cfg(["p1", "p2"], ["c1"], 2, 2, 5, extra=MSQ_INV), 30000)]
+        s_dumps = [("1s", (["p1", "p2"], 1, ["s1"], ["s1"], ["d1"], 2, ["k1"], 2), 20000, STREAM_INV_1D),
+                   ("2s", (["p1"], 2, ["s1", "s2"], ["s1"], ["d1", "d3"], 1, ["k1"], 2), 8000, STREAM_INV_1D),
+                   ("2d", (["p1", "p2"], 1, ["s1"], ["s1"], ["d1", "d2"], 2, [], 0), 8000, STREAM_INV_2D)]
+        nh = 4000
+    f_q = [pool.submit(q_pipeline, *x) for x in q_dumps]
+    if not quick:
+        f_q.append(pool.submit(q_sim_pipeline, "sim3e2d", 3000))
+    f_s = [pool.submit(s_pipeline, *x) for x in s_dumps]
+    f_w = pool.submit(s_replay, "witness", witnesses())
+    f_qs = [pool.submit(stress, "qstress", "3e3m1d", 3, 3, 1, nh), pool.submit(stress, "qstress", "3e2m2d", 3, 2, 2, nh)]
+    f_ss = [pool.submit(stress, "sstress", "3p3e1d", 3, 3, 1, nh), pool.submit(stress, "sstress", "3p2e2d", 3, 2, 2, nh)]
+
+    # ------------------------------------------------------------------ thorough: larger exhaustive runs, stale-Defects guards
+    f_big = []
+    if not quick:
+        bigs = [("MC_MSQueue", "mc-2e2m-2d2", msq_cfg(["p1", "p2"], ["c1", "c2"], 2, 2, 5, extra=MSQ_INV)),
+                ("MC_MSQueue", "mc-3e1m-2d2", msq_cfg(["p1", "p2", "p3"], ["c1", "c2"], 1, 2, 4, extra=MSQ_INV)),
+                ("MC_MSQueue", "mc-2e2m-1d4", msq_cfg(["p1", "p2"], ["c1"], 2, 4, 5, extra=MSQ_INV)),
+                ("MC_Stream", "mcs-2p2e", stream_cfg(["p1", "p2"], 2, ["s1"], ["s1"], ["d1"], 2, ["k1"], 2, STREAM_INV_1D)),
+                ("MC_Stream", "mcs-2k", stream_cfg(["p1"], 2, ["s1"], ["s1"], ["d1"], 1, ["k1", "k2"], 1, STREAM_INV_1D)),
+                ("MC_Stream", "mcs-2d-k", stream_cfg(["p1", "p2"], 1, ["s1"], ["s1"], ["d1", "d2"], 2, ["k1"], 1, STREAM_INV_2D))]
+        for module, name, text in bigs:
+            cfg = write_cfg(ctx, lock, name + ".cfg", text)
+            f_big.append(pool.submit(ctx.tlc_must_hold, SPEC, os.path.basename(cfg), module=module,
+                                     files={os.path.basename(cfg): cfg}, timeout=2400, workers=6, name=name))
+    f_asis = [pool.submit(ctx.tlc, SPEC, "MC_MSQueue_asis.cfg", module="MC_MSQueue", timeout=900, expect_fail=True, workers=2),
+              pool.submit(ctx.tlc, SPEC, "MC_Stream_asis.cfg", module="MC_Stream", timeout=900, expect_fail=True, workers=2)] \
+        if not quick else []
+
+    # ------------------------------------------------------------------ collect replays
+    q_res = [f.result() for f in f_q]
+    s_res = [f.result() for f in f_s]
+    w_res = f_w.result()
+    for r in q_res + s_res + [w_res]:
+        rs = r["rs"]
+        if r["label"] != "witness":
+            total["walks_available"] += r["avail"]
+            total["walks"] += rs["behaviours"]
+            if len(samples) < 4 and r["label"] in ("1d", "1s"):
+                samples.append({("msqueue_walk" if r in q_res else "stream_walk"): r["sample"]})
+            if rs.get("drift_at"):
+                drift_notes.append("replay drift (%s): %s" % (r["label"], rs["drift_at"]))
+        total["drift"] += rs["drift"] if r["label"] != "witness" else 0
         total["unrep"] += rs["unreproduced"]
         total["pred"] += rs["pred_mismatch"]
-        total["walks"] += rs["behaviours"]
         total["steps"] += rs["steps"]
-        ctx.log("qreplay %-5s: %d walks, %d atomic steps, drift %d, unreproduced %d, pred-mismatch %d, watchdog %d | histories %d ok %d"
-                % (label, rs["behaviours"], rs["steps"], rs["drift"], rs["unreproduced"], rs["pred_mismatch"], rs["watchdog"], j.n, j.ok))
-        if rs.get("drift_at"):
-            drift_notes.append("replay drift: " + rs["drift_at"])
-        if drift:
-            drift_notes.append(drift)
-        account_fifo(j, "puppet replay of MSQueue.tla edge cover %s" % label)
-    for fut in stress_futs:
-        label, j = fut.result()
-        if len(samples) < 4:
-            samples.append({"qstress_" + label: j.rows[1:9]})
-        ctx.log("qstress %-7s: histories %d ok %d (with overlap %d)" % (label, j.n, j.ok, j.concurrent))
-        account_fifo(j, "free-running stress %s" % label)
-    for fut in stream_futs:
-        fut()
+        ctx.log("%s %-7s: %s%d walks, %d atomic steps, drift %d, unreproduced %d, pred-mismatch %d, watchdog %d"
+                % ("qreplay" if r in q_res else "sreplay", r["label"],
+                   ("model %d states, obligations hold; " % r["distinct"]) if "distinct" in r else "",
+                   rs["behaviours"], rs["steps"], rs["drift"], rs["unreproduced"], rs["pred_mismatch"], rs["watchdog"]))
+
+    # ------------------------------------------------------------------ judge (TLC): verdict monitors + conformance
+    qs_res = [f.result() for f in f_qs]
+    ss_res = [f.result() for f in f_ss]
+    f_lin = pool.submit(judge_fifo, ctx, lock, [("qreplay-" + r["label"], r["hist"]) for r in q_res] +
+                        [(r["label"], r["hist"]) for r in qs_res])
+    f_mon = pool.submit(judge_stream, ctx, lock, [("sreplay-" + r["label"], r["hist"]) for r in s_res + [w_res]] +
+                        [(r["label"], r["hist"]) for r in ss_res])
+    f_conf = [pool.submit(conformance, ctx, lock, None, "Trace_MSQueue", "Trace_MSQueue", [(r["label"], r["conf"]) for r in q_res])]
+    for r in s_res:
+        f_conf.append(pool.submit(conformance, ctx, lock, stream_cfg(*r["consts"], spec="TSpec"), "Trace_Stream",
+                                  "Trace_Stream_" + r["label"], [(r["label"], r["conf"])]))
+    verdicts = []
+    for what, f in (("internal/queue", f_lin), ("eventstream", f_mon)):
+        j = f.result()
+        for label in sorted(j.n):
+            total["hist"] += j.n[label]
+            total["concurrent_ok"] += max(0, min(j.concurrent[label], j.n[label] - len(j.bad[label])))
+            ctx.log("%-14s %-18s: histories %d, distinct with overlapping operations %d, violating %d"
+                    % (what, label, j.n[label], j.concurrent[label], len(j.bad[label])))
+            if label.startswith("qstress") or label.startswith("sstress"):
+                if len(samples) < 6:
+                    a = [x for x in j.sources if x[0] == label][0][1]
+                    samples.append({label: j.rows[a:a + 8]})
+            if j.bad[label]:
+                verdicts.append((what, label, j, j.bad[label]))
+    for f in f_conf:
+        d = f.result()
+        if d:
+            drift_notes.append(d)
+    for f in f_big:
+        r = f.result()
+        ctx.log("design (thorough): %d distinct states, obligations hold" % r.distinct)
+    for f, inv in zip(f_asis, ("MSQueue.tla with Defects={PoolReuse}", "Stream.tla with Defects={LengthWrap}")):
+        if f.result().violated is None:
+            raise vlib.Infra("%s no longer violates its obligations (spec changed? the Defects branch is stale)" % inv)
     pool.shutdown()
     for d in drift_notes:
         ctx.log("conformance drift (not a verdict): " + d)
-    finish()
+    if verdicts:
+        what, label, j, bad = verdicts[0]
+        nbad = sum(len(v[3]) for v in verdicts)
+        a, b, detail = bad[0]
+        rp = ctx.save_replay("%s-seed%d" % (label, ctx.seed), cut(ctx, lock, j.rows, (a, b), "violation-" + label))
+        evidence(violations=nbad)
+        raise vlib.Violation(pid, rp, "%s (%s): %d of %d recorded real histories violate C20; first (lines %d..%d of the batch): %s"
+                             % (what, label, len(bad), j.n[label], a, b, detail))
+    evidence()
 
 
-def run_stream(ctx, pid, exe, pool, lock, rng, total, samples, drift_notes):
-    return []
+# ------------------------------------------------------------------------------------------- stream level
+GATES = ["es.pub.snap", "es.pub.active", "es.sig.active", "msq.enq.loadtail", "msq.enq.len", "es.iter.len", "msq.deq.loadhead",
+         "msq.deq.len", "es.sub.active", "es.sub.self", "es.sub.topics", "es.unsub.self", "es.unsub.topics", "es.rm.topics",
+         "es.rm.delete", "es.shutdown"]
+S_AT = {"PCall": "call", "PSnap": "es.pub.snap", "PActive": "es.pub.active", "PSig": "es.sig.active", "PLink": "msq.enq.loadtail",
+        "PCnt": "msq.enq.len", "ICall": "call", "ILen": "es.iter.len", "IDeq": "msq.deq.loadhead", "IDec": "msq.deq.len",
+        "KSubscribe": "call", "KUnsubscribe": "call", "KRemove": "call", "KShutdown": "call", "KSubActive": "es.sub.active",
+        "KSubSelf": "es.sub.self", "KSubTopics": "es.sub.topics", "KUnsubSelf": "es.unsub.self", "KUnsubTopics": "es.unsub.topics",
+        "KRmTopics": "es.rm.topics", "KRmDelete": "es.rm.delete", "KShut": "es.shutdown"}
+K_OP = {"KSubscribe": "sub", "KUnsubscribe": "unsub", "KRemove": "rm", "KShutdown": "shutdown"}
+
+
+def drain_of(d):
+    return "s2" if d == "d3" else "s1"      # = DrainMap of MC_Stream.tla
+
+
+def strfn(txt):
+    """'[k1 |-> "s1", k2 |-> ""]' -> dict"""
+    return {m.group(1): m.group(2) for m in re.finditer(r'(\w+) \|-> "([^"]*)"', txt)}
+
+
+def seqfn(txt):
+    """'[p1 |-> <<"s1", "s2">>, p2 |-> <<>>]' -> dict of lists"""
+    return {m.group(1): re.findall(r'"([^"]*)"', m.group(2)) for m in re.finditer(r'(\w+) \|-> <<([^>]*)>>', txt)}
+
+
+def stream_cfg(pubs, npub, subs, init, drainers, niter, ctls, kops, extra="", spec="Spec"):
+    q = lambda xs: ", ".join('"%s"' % x for x in xs)
+    return ('SPECIFICATION %s\nCONSTANTS\n  Pubs = {%s}\n  NPub = %d\n  RankOf <- Ranks\n  Subs = {%s}\n  InitSubscribed = {%s}\n'
+            '  Drainers = {%s}\n  DrainOf <- DrainMap\n  NIter = %d\n  Ctls = {%s}\n  KOps = %d\n  Defects = {}\nCHECK_DEADLOCK FALSE\n%s'
+            % (spec, q(pubs), npub, q(subs), q(init), q(drainers), niter, q(ctls), kops, extra))
+
+
+STREAM_INV_1D = "VIEW View\nINVARIANTS AtMostOnce NeverAfterUnsub NoLoss PublishOrder LenExact NoPanic LenSafe\n"
+STREAM_INV_2D = "VIEW View\nINVARIANTS AtMostOnce NeverAfterUnsub NoLoss PublishOrder LenExact NoPanic\n"
+
+
+def stream_behaviours(g, walks, subs, init):
+    out = []
+    for w in walks:
+        progs = collections.defaultdict(list)
+        steps = []
+        cur = g.root
+        npub = collections.Counter()
+        for s in w:
+            a, args = s["a"], s["args"]
+            t = args[0]
+            pre = g.state(cur)
+            post = g.state(s["to"])
+            x = {"t": t, "at": S_AT[a], "a": a}
+            if a == "PCall":
+                npub[t] += 1
+                progs[t].append(["pub", int(t[1:]) * 10 + npub[t]])
+            elif a == "ICall":
+                progs[t].append(["iter", drain_of(t)])
+            elif a in K_OP:
+                progs[t].append([K_OP[a], args[1]])
+                x["s"] = args[1]
+            elif a in ("PActive", "PSig", "PLink", "PCnt"):
+                x["obj"] = seqfn(pre["snap"])[t][0]
+            elif a in ("ILen", "IDeq", "IDec"):
+                x["obj"] = drain_of(t)
+            elif a.startswith("K"):
+                x["obj"] = strfn(pre["ks"])[t]
+            if a in ("ILen", "IDeq", "IDec") and re.search(r'%s \|-> "(idle|done)"' % t, post["pc"]):
+                x["res"] = [int(v) for v in re.findall(r'-?\d+', post["lastRes"])]
+            steps.append(x)
+            cur = s["to"]
+        out.append({"subs": subs, "init": init, "progs": progs, "gates": GATES, "steps": steps})
+    return out
+
+
+# hand-written fine-grained schedules (regression witnesses of the two defects found; see docs/eventstream.md)
+def witnesses():
+    w1 = {"subs": ["s1"], "init": ["s1"], "gates": ["msq.enq.link"],
+          "progs": {"p1": [["pub", 11]], "p2": [["pub", 21]], "d1": [["iter", "s1"], ["iter", "s1"]]},
+          "steps": [{"t": "p1", "at": "call"},            # p1: Publish up to the link CAS, holding tail = the dummy
+                    {"t": "p2", "at": "call"}, {"t": "p2", "at": "msq.enq.link"},   # p2: complete Publish
+                    {"t": "d1", "at": "call"},            # Iterator returns [21]; with node recycling the dummy is reset
+                    {"t": "p1", "at": "msq.enq.link"},    # p1 links behind the node it loaded as tail
+                    {"t": "d1", "at": "call"}]}           # Iterator
+    w2 = {"subs": ["s1"], "init": ["s1"], "gates": ["msq.enq.len", "msq.deq.len", "es.iter.len"],
+          "progs": {"p1": [["pub", 11]], "p2": [["pub", 21]], "d1": [["iter", "s1"], ["iter", "s1"]], "d2": [["iter", "s1"]]},
+          "steps": [{"t": "p1", "at": "call"}, {"t": "p1", "at": "msq.enq.len"},     # 11 linked and counted
+                    {"t": "p2", "at": "call"},                                          # 21 linked, not yet counted
+                    {"t": "d1", "at": "call"}, {"t": "d1", "at": "es.iter.len"},      # d1: n = 1, dequeues 11
+                    {"t": "d2", "at": "call"}, {"t": "d2", "at": "es.iter.len"},      # d2: n = 1, dequeues 21
+                    {"t": "d1", "at": "msq.deq.len"}, {"t": "d2", "at": "msq.deq.len"},   # len = -1
+                    {"t": "d1", "at": "call"}, {"t": "d1", "at": "es.iter.len"}]}     # Iterator reads a negative length
+    return [w1, w2]
+
+
